@@ -62,10 +62,31 @@ def call(E, name, args, kwargs):
         h = E.heap[args[0].addr]
         return h.fields['level']
     if name == 'stack_unchanged':
-        return VC(stack_unchanged(E, args[0]))
+        r = stack_extra(E, args[0])
+        return VC(r == 0) if isinstance(r, int) else VB(r == 0)
     if name == 'stack_extra':
-        # number of concrete entries above the entry stack (python int) or -1
-        return VC(stack_extra(E, args[0]))
+        # number of entries above the entry stack (int, or z3 Int when ghost segments are present) or -1
+        r = stack_extra(E, args[0])
+        return VC(r) if isinstance(r, int) else VI(r)
+    if name == 'iter_pos':
+        h = E.heap[args[0].addr]
+        return VI(h.fields['pos'])
+    if name == 'iter_len':
+        h = E.heap[args[0].addr]
+        return VI(h.fields['src'].length)
+    if name == 'iter_elem':
+        h = E.heap[args[0].addr]
+        return E.seq_elem(h.fields['src'], E.as_z3_int(args[1]))
+    if name == 'list_prefix_of_iter':
+        # forall i in [0, len(lst)): lst[i] is src[i]
+        lst = E.heap[args[0].addr]
+        src = E.heap[args[1].addr].fields['src']
+        i = z3.Int('i!pfx')
+        n = E.list_len(lst)
+        n = I(n) if isinstance(n, int) else n
+        return VB(z3.ForAll([i], z3.Implies(z3.And(i >= 0, i < n), list_elem_term(E, lst, i) == src.elem(i))))
+    if name == 'val_is':
+        return VB(E.to_val(args[0]) == E.to_val(args[1]))
     if name == 'data_len':
         h = E.heap[args[0].addr]
         lst = E.heap[h.fields['data'].addr]
@@ -95,8 +116,35 @@ def stack_extra(E, md):
     n0 = len(snap['items'])
     if len(lst.items) < n0 or any(a is not b for a, b in zip(lst.items[:n0], snap['items'])):
         return -1
-    return len(lst.items) - n0
+    extra = lst.items[n0:]
+    if any(isinstance(x, SymSeg) for x in extra):
+        n = I(0)
+        for x in extra:
+            n = n + (x.length if isinstance(x, SymSeg) else 1)
+        return z3.simplify(n)
+    return len(extra)
 
 
 def stack_unchanged(E, md):
-    return stack_extra(E, md) == 0
+    r = stack_extra(E, md)
+    return r == 0 if isinstance(r, int) else False
+
+
+def list_elem_term(E, h, i):
+    """Val term for h[i] with symbolic i (0 <= i < len assumed)"""
+    pos = h.base.length if h.base is not None else I(0)
+    alts = []
+    for x in h.items:
+        if isinstance(x, SymSeg):
+            f = z3.Function('seg_' + x.name, z3.IntSort(), Val)
+            alts.append((z3.And(i >= pos, i < pos + x.length), f(i - pos)))
+            pos = pos + x.length
+        else:
+            alts.append((i == pos, E.to_val(x)))
+            pos = pos + 1
+    term = z3.Const('undef_elem', Val)
+    for c, t in reversed(alts):
+        term = z3.If(c, t, term)
+    if h.base is not None:
+        term = z3.If(i < h.base.length, h.base.elem(i), term)
+    return term
